@@ -9,6 +9,7 @@ EXPLANATION = (
     "(R-C13-shape) the invariant itself: Segment.data is mutated only by Segment::push; CommitLog.segments is mutated only by new() and apply_retention(); in apply_retention pop_front is paired with head += 1 "
     "and push_back with tail += 1 in the same straight-line region; pop_front happens only under `memory_segments_count() >= max_mem_segments` and on a path that always reaches the push_back "
     "(whole oldest segment only, never empty); append() calls apply_retention before pushing. "
+    "(R-C13-config) the size / count limits a filter's log is created with are read from the like-meaning configuration fields (shared with R-C03-config); "
     "NOT decided: the cursor algebra (gap-free, repeat-free suffix; Next/Done exactly) — value-level over append/read histories.")
 ASSUMPTIONS = ["rustc MIR construction is correct; rules/ext_api.json; u64/usize arithmetic on offsets does not overflow"]
 TECHNIQUE = "static analysis: MIR may-panic inventory with guarded-subtraction discharge + who-may-write and pairing/dominance rules on the retention code"
@@ -25,6 +26,17 @@ def run(ctx):
     ctx.guarded("R-C13-shape", shape, ctx, prog)
     ctx.guarded("R-C13-guards", guards, ctx, prog)
     ctx.guarded("R-C13-tags", tags, ctx, prog)
+    ctx.guarded("R-C13-config", retention_config, ctx, prog)
+
+
+def retention_config(ctx, prog):
+    """'discards only whole oldest segments' up to the CONFIGURED bounds: the size / count limits a log is created with
+    are read from the like-meaning configuration fields (shared with R-C03-config)"""
+    from . import c03
+    from .common import Relabel
+    view = Relabel(ctx, "R-C13-config", lambda fn, inst: True)
+    c03.config_args(view, prog)
+    ctx.floor("R-C13-config", "verdicts about CommitLog::new's configuration arguments", view.kept, 2)
 
 
 def guards(ctx, prog):
